@@ -124,7 +124,7 @@ def run(check, repo: Repo) -> None:
     k = KAT(spi, index_axes={"self.roi_shape": IMG, "obj_shape": {-2: ROW, -1: COL}}, seeds={"self.scan_positions_px": Pair((ROW, COL))}).run()
     check.assume("scan positions are (row, col) pairs in pixels")
     for n, m in k.clashes:
-        check.violated("C02-R3", f"_set_patch_indices: axis clash `{unparse(n)[:60]}`", m + " — probes are gathered from the wrong object pixels on non-square grids", dmod.line(n))
+        check.violated("C02-R3", f"_set_patch_indices: axis clash `{unparse(n)[:60]}`", m + " — probes are gathered from the wrong object pixels on non-square grids", dmod.line(n), definite=True)
     if not k.clashes:
         check.holds("C02-R3", "_set_patch_indices: offsets, positions, wraps and strides stay on their own axis", where=dmod.line(spi))
     pic = k.env.get("patch_indices_chunk")
@@ -168,7 +168,7 @@ def run(check, repo: Repo) -> None:
             raise AnalysisError(f"_set_patch_indices: chunk loop `{unparse(it)}` not recognised")
     else:
         raise AnalysisError(f"_set_patch_indices: chunk loop `{unparse(it)}` not recognised")
-    check.decide(ok, "C02-R3", "_set_patch_indices: the chunks partition all scan positions", why, dmod.line(lp),
+    check.decide(ok, "C02-R3", "_set_patch_indices: the chunks partition all scan positions", why, dmod.line(lp), definite="floor division" in why,
                  fail_detail=f"{why}: the forward model gathers a wrong patch for those positions, so the loss at the ground truth is not zero")
     fin = [unparse(n.value) for n in ast.walk(spi) if isinstance(n, ast.Assign) and dotted(n.targets[0]) == "self._patch_indices"]
     check.decide(fin == ["torch.cat(patch_indices_list, dim=0)"] or (len(fin) == 1 and ok), "C02-R3", "_set_patch_indices: chunks are concatenated in scan order", str(fin), dmod.line(spi),
